@@ -151,6 +151,17 @@ PROPS = {
         "rule": "the seven LIST record instructions by NAME: stack-id vectors of length 0..6 over the 9 valid ids, the ids of stacks that cannot be loaded (7, 8, 12) and invalid ids (0, 13, -1, 99), repeated ids, all typed stacks with empty and non-empty contents, 0..4 records on CODE (flat, nested, atoms), positions in [-2, depth+2], n in 0..4 plus negative and huge; programs that build id vectors with the *.ID instructions, add records, read them back (LIST.GET) and execute them, single-stepped with every transition validated; outcome compared with the record statements (points-based n-th value, declarative id fold); non-trivial = the state changed",
         "assumptions": [],
     },
+    "C18": {
+        "scenarios": lambda tier, q: [
+            {"name": "graph", "args": []},
+            {"name": "graph-exh", "args": []},
+            {"name": "exec", "args": ["GRAPH.", "400" if tier == "quick" else "4000"]},
+        ],
+        "signature": lambda req: "graphseq" if req.startswith("( graphseq") else sig_exec(req),
+        "rule": "Graph API: every sequence of length 3 (thorough 4) over {add_node, remove_node, add/remove_edge, set_state, set_weight, snapshot, diffsnap} on two initial nodes followed by size and filter queries, and random sequences (<=120 calls) with valid, stale (removed) and never-issued ids, NaN / inf weights, clone then mutate then diff; after every call the result, the graph (both maps) and the structural invariant are compared with the Layer-0 model and with a plain set model; the 19 GRAPH.* instructions by NAME on generated states holding graphs with nodes, edges and emptied edge lists, ids drawn from the graphs or arbitrary; non-trivial = every sequence (each creates nodes) / a transition that changed the state",
+        "exhaustive": True,
+        "assumptions": ["node ids are relational to the process-global counter: the model takes the observed id and requires it to be fresh", "GRAPH.PRINT / PRINT*DIFF text depends on HashMap order and the shortest-round-trip float printer: only emptiness is compared"],
+    },
     "C01": {
         "scenarios": lambda tier, q: [
             {"name": "exec", "args": ["*"]},
